@@ -477,6 +477,8 @@ def check_g(ctx, facts, tier, seed):
         for p in cfgs[len(cfgs) // 2::step][:percfg]:
             designs.append((sp['name'], str(p), (lambda D, sp=sp, p=p: sp['build'](D, p)), True, sp['seq'] is not None))
     for name, b in composites():
+        if name == 'second clock domain':
+            continue        # derived clocks are outside the cycle-based simulator's model (and see the C03 known finding)
         designs.append((name, '', b, False, True))
     done = 0
     skipped = []
